@@ -343,6 +343,9 @@ func (vc *FuncVC) applyContract(st *State, reach Term, ins *ssa.Call, callee *ss
 	}
 	envPost := &Env{g: vc.Gen, cur: st, old: pre, vars: post}
 	for _, en := range fc.Ensures {
+		if mentionsUnknown(vc.W, en.E, post) {
+			continue // clause about the callee's own locals: not part of its external contract
+		}
 		vc.assume(Implies(reach, envPost.boolean(en.E)))
 	}
 	if vc.fc.Delegate == name && vc.discovery == 0 {
@@ -549,5 +552,57 @@ func (vc *FuncVC) mentionsUnallocatedLocal(x Expr, vars map[string]SVal) bool {
 		}
 	}
 	walk(x)
+	return found
+}
+
+// mentionsUnknown: the expression uses an identifier that is neither bound in vars nor a package-level name
+// (i.e. it names a local of the function the clause belongs to).
+func mentionsUnknown(W *World, x Expr, vars map[string]SVal) bool {
+	found := false
+	var walk func(x Expr, bound map[string]bool)
+	walk = func(x Expr, bound map[string]bool) {
+		switch x := x.(type) {
+		case *EIdent:
+			if _, ok := vars[x.Name]; ok || bound[x.Name] {
+				return
+			}
+			if W.pkg.Types.Scope().Lookup(x.Name) != nil {
+				return
+			}
+			found = true
+		case *EOld:
+			walk(x.X, bound)
+		case *ELet:
+			walk(x.V, bound)
+			b2 := map[string]bool{x.Name: true}
+			for k := range bound {
+				b2[k] = true
+			}
+			walk(x.Body, b2)
+		case *EForall:
+			walk(x.Lo, bound)
+			walk(x.Hi, bound)
+			b2 := map[string]bool{x.Var: true}
+			for k := range bound {
+				b2[k] = true
+			}
+			walk(x.Body, b2)
+		case *EUn:
+			walk(x.X, bound)
+		case *EBin:
+			walk(x.X, bound)
+			walk(x.Y, bound)
+		case *EField:
+			walk(x.X, bound)
+		case *EIndex:
+			walk(x.X, bound)
+			walk(x.I, bound)
+		case *ECall:
+			for _, a := range x.Args {
+				walk(a, bound)
+			}
+		}
+	}
+	walk(x, map[string]bool{})
 	return found
 }
